@@ -317,10 +317,11 @@ Proof.
   apply slist_eqb_true in H1. apply rows_eqb_true in H2. subst. reflexivity.
 Qed.
 
-(* the first input type with the same grammar / the same default formatter *)
-Definition rep_it (it : string) : string :=
-  match find (fun r => gram_eqb (grammar TB r) (grammar TB it)) input_types with Some r => r | None => it end.
-Definition rep_its : list string := dedup_s (map rep_it input_types).
+(* the distinct grammars (input type x dictionary strategy) and root formatters *)
+Definition dss : list dstrategy := [DSAuto; DSMatch; DSNone].
+Fixpoint dedup_g (l : list gram) : list gram :=
+  match l with [] => [] | x :: r => if existsb (gram_eqb x) r then dedup_g r else x :: dedup_g r end.
+Definition rep_grams : list gram := dedup_g (flat_map (fun it => map (grammar_o TB it) dss) input_types).
 Definition rep_roots : list string := dedup_s (map (root_class TB) input_types).
 
 (* everything the theorems need about one (grammar, root formatter, mode), computed in one pass *)
@@ -331,25 +332,29 @@ Definition combo_ok (g : gram) (r : string) (m : omode) : bool :=
     let st := step TB g c in
     forallb (fun c' => memcfg c' S) (cfgs_of st) &&
     negb (existsb (is_err SNoPrinter) st) && negb (existsb (is_err SBad) st) &&
-    negb (existsb (is_err SEmitOther) st)) S.
+    negb (existsb (is_err SEmitOther) st) && negb (sloop TB c)) S.
 
+(* checked once, by the kernel's VM at Qed (vm_cast_no_check skips the tactic-time evaluation) *)
 Lemma all_combos_ok_true :
-  forallb (fun i => forallb (fun r => forallb (fun m => combo_ok (grammar TB i) r m) out_modes) rep_roots) rep_its = true.
-Proof. vm_compute. reflexivity. Qed.
+  forallb (fun g => forallb (fun r => forallb (fun m => combo_ok g r m) out_modes) rep_roots) rep_grams = true.
+Proof. vm_cast_no_check (eq_refl true). Qed.
 
-Lemma all_combos_forall : forall i r m, In i rep_its -> In r rep_roots -> In m out_modes ->
-  combo_ok (grammar TB i) r m = true.
+Lemma all_combos_forall : forall g r m, In g rep_grams -> In r rep_roots -> In m out_modes ->
+  combo_ok g r m = true.
 Proof.
-  intros i r m Hi Hr Hm.
-  exact (proj1 (forallb_forall _ _) (proj1 (forallb_forall _ _) (proj1 (forallb_forall _ _) all_combos_ok_true i Hi) r Hr) m Hm).
+  intros g r m Hi Hr Hm.
+  exact (proj1 (forallb_forall _ _) (proj1 (forallb_forall _ _) (proj1 (forallb_forall _ _) all_combos_ok_true g Hi) r Hr) m Hm).
 Qed.
 
-Lemma rep_it_same : forall it, In it input_types -> grammar TB (rep_it it) = grammar TB it /\ In (rep_it it) rep_its.
+Lemma ds_in : forall ds, In ds dss.
+Proof. destruct ds; simpl; auto. Qed.
+Lemma gram_in : forall it ds, In it input_types -> In (grammar_o TB it ds) rep_grams.
 Proof.
-  assert (H : forallb (fun it => gram_eqb (grammar TB (rep_it it)) (grammar TB it) && mem (rep_it it) rep_its)
+  assert (H : forallb (fun it => forallb (fun ds => existsb (gram_eqb (grammar_o TB it ds)) rep_grams) dss)
                 input_types = true) by (vm_compute; reflexivity).
-  intros it Hin. rewrite forallb_forall in H. specialize (H it Hin). apply andb_true_iff in H. destruct H as [H1 H2].
-  split. { apply gram_eqb_true. exact H1. } apply mem_In. exact H2.
+  intros it ds Hin. rewrite forallb_forall in H. specialize (H it Hin).
+  rewrite forallb_forall in H. specialize (H ds (ds_in ds)).
+  apply existsb_exists in H. destruct H as [g' [Hg' He]]. apply gram_eqb_true in He. rewrite He. exact Hg'.
 Qed.
 Lemma root_in : forall of, In of input_types -> In (root_class TB of) rep_roots.
 Proof.
@@ -359,18 +364,18 @@ Qed.
 Lemma mode_in : forall m, In m out_modes.
 Proof. destruct m; simpl; auto. Qed.
 
-Lemma combo_ok_all : forall it of m, In it input_types -> In of input_types ->
-  combo_ok (grammar TB it) (root_class TB of) m = true.
+Lemma combo_ok_all : forall it ds of m, In it input_types -> In of input_types ->
+  combo_ok (grammar_o TB it ds) (root_class TB of) m = true.
 Proof.
-  intros it of m Hi Ho. destruct (rep_it_same it Hi) as [Hg Hr]. rewrite <- Hg.
-  apply all_combos_forall; [exact Hr | apply root_in; exact Ho | apply mode_in].
+  intros it ds of m Hi Ho.
+  apply all_combos_forall; [apply gram_in; exact Hi | apply root_in; exact Ho | apply mode_in].
 Qed.
 
 Lemma combo_facts : forall g r m, combo_ok g r m = true ->
   let S := reach TB g r m in
   (forall c, In c (entries TB g r m) -> In c S) /\ closed TB g S /\
   (forall c, In c S -> cfg_has TB g SNoPrinter c = false /\ cfg_has TB g SBad c = false /\
-                       cfg_has TB g SEmitOther c = false).
+                       cfg_has TB g SEmitOther c = false /\ sloop TB c = false).
 Proof.
   intros g r m H S. unfold combo_ok in H. fold S in H. apply andb_true_iff in H. destruct H as [He Ha].
   rewrite forallb_forall in Ha. repeat split.
@@ -378,6 +383,8 @@ Proof.
   - intros c c' Hc Hs. specialize (Ha c Hc). cbv zeta in Ha.
     repeat (apply andb_true_iff in Ha; destruct Ha as [Ha ?]).
     rewrite forallb_forall in Ha. apply memcfg_In. apply Ha. apply in_cfgs_of. exact Hs.
+  - specialize (Ha c H). cbv zeta in Ha. repeat (apply andb_true_iff in Ha; destruct Ha as [Ha ?]).
+    apply negb_true_iff in H3. exact H3.
   - specialize (Ha c H). cbv zeta in Ha. repeat (apply andb_true_iff in Ha; destruct Ha as [Ha ?]).
     apply negb_true_iff in H2. exact H2.
   - specialize (Ha c H). cbv zeta in Ha. repeat (apply andb_true_iff in Ha; destruct Ha as [Ha ?]).
@@ -393,49 +400,58 @@ Definition table_sizes : (nat * nat * nat * nat * nat) :=
 (* ------------------------------------------------------------------ Part 3: the property *)
 
 (* rendering a document t of input type `it` with the formatter of `of` in mode m meets configuration c on item x *)
-Definition renders (it of : string) (m : omode) (t : tree) (c : cfg) (x : tree) : Prop :=
-  exists c0 t0, entry_ok TB (grammar TB it) (root_class TB of) m c0 t0 /\
-                (m = MDiff -> t0 = t) /\ creach TB (grammar TB it) (c0, t0) (c, x).
+Definition renders (it : string) (ds : dstrategy) (of : string) (m : omode) (t : tree) (c : cfg) (x : tree) : Prop :=
+  exists c0 t0, entry_ok TB (grammar_o TB it ds) (root_class TB of) m c0 t0 /\
+                (m = MDiff -> t0 = t) /\ creach TB (grammar_o TB it ds) (c0, t0) (c, x).
 
 (* reachability of classes covers every tree produced by the input type (trees of any size and depth) *)
-Theorem C13_cover : forall it of m t c x,
-  In it input_types -> In of input_types -> renders it of m t c x ->
-  In c (reach TB (grammar TB it) (root_class TB of) m) /\ fits (grammar TB it) c x = true.
+Theorem C13_cover : forall it ds of m t c x,
+  In it input_types -> In of input_types -> renders it ds of m t c x ->
+  In c (reach TB (grammar_o TB it ds) (root_class TB of) m) /\ fits (grammar_o TB it ds) c x = true.
 Proof.
-  intros it of m t c x Hi Ho [c0 [t0 [He [_ Hr]]]].
-  destruct (combo_facts _ _ _ (combo_ok_all it of m Hi Ho)) as [F1 [F2 F3]].
+  intros it ds of m t c x Hi Ho [c0 [t0 [He [_ Hr]]]].
+  destruct (combo_facts _ _ _ (combo_ok_all it ds of m Hi Ho)) as [F1 [F2 F3]].
   destruct (entry_in _ _ _ _ _ _ He) as [E1 E2].
-  apply (cover TB (grammar TB it) _ c0 t0 c x F2 (F1 _ E1) E2 Hr).
+  apply (cover TB (grammar_o TB it ds) _ c0 t0 c x F2 (F1 _ E1) E2 Hr).
 Qed.
 
 (* dispatch totality: a print method is resolved for every class met, and the model is never stuck *)
-Theorem C13_dispatch_total : forall it of m t c x,
-  In it input_types -> In of input_types -> renders it of m t c x ->
+Theorem C13_dispatch_total : forall it ds of m t c x,
+  In it input_types -> In of input_types -> renders it ds of m t c x ->
   exists f meth ow, resolve TB (mro_of TB (c_cls c)) (Some (c_f c)) = RFound f meth /\
                     has_print TB (fcls f) meth = Some ow.
 Proof.
-  intros it of m t c x Hi Ho Hr. destruct (C13_cover _ _ _ _ _ _ Hi Ho Hr) as [Hin _].
-  destruct (combo_facts _ _ _ (combo_ok_all it of m Hi Ho)) as [_ [_ F3]].
-  destruct (F3 c Hin) as [N1 [N2 _]]. apply (clean_resolved TB (grammar TB it) c N1 N2).
+  intros it ds of m t c x Hi Ho Hr. destruct (C13_cover _ _ _ _ _ _ _ Hi Ho Hr) as [Hin _].
+  destruct (combo_facts _ _ _ (combo_ok_all it ds of m Hi Ho)) as [_ [_ F3]].
+  destruct (F3 c Hin) as [N1 [N2 [_ _]]]. apply (clean_resolved TB (grammar_o TB it ds) c N1 N2).
 Qed.
 
 (* the property, outside the two classes of configurations the model itself delimits *)
-Theorem C13_partial : forall it of m,
+Theorem C13_partial : forall it ds of m,
   In it input_types -> In of input_types ->
-  kf_reparent_cfg TB (grammar TB it) (root_class TB of) m = false ->
-  kf_emit_cfg TB (grammar TB it) (root_class TB of) m = false ->
-  forall t c x, renders it of m t c x -> node_ok TB (grammar TB it) c x = true.
+  kf_reparent_cfg TB (grammar_o TB it ds) (root_class TB of) m = false ->
+  kf_emit_cfg TB (grammar_o TB it ds) (root_class TB of) m = false ->
+  forall t c x, renders it ds of m t c x -> node_ok TB (grammar_o TB it ds) c x = true.
 Proof.
-  intros it of m Hi Ho K1 K2 t c x Hr. destruct (C13_cover _ _ _ _ _ _ Hi Ho Hr) as [Hin _].
-  destruct (combo_facts _ _ _ (combo_ok_all it of m Hi Ho)) as [_ [_ F3]].
-  destruct (F3 c Hin) as [N1 [N2 N3]]. apply clean_node_ok.
+  intros it ds of m Hi Ho K1 K2 t c x Hr. destruct (C13_cover _ _ _ _ _ _ _ Hi Ho Hr) as [Hin _].
+  destruct (combo_facts _ _ _ (combo_ok_all it ds of m Hi Ho)) as [_ [_ F3]].
+  destruct (F3 c Hin) as [N1 [N2 [N3 _]]]. apply clean_node_ok.
   rewrite kf_reparent_cfg_eq in K1. rewrite kf_emit_cfg_eq in K2.
-  exact (clean_from_set TB (grammar TB it) _ c Hin K1 K2 N1 N2 N3).
+  exact (clean_from_set TB (grammar_o TB it ds) _ c Hin K1 K2 N1 N2 N3).
+Qed.
+
+(* no configuration met hands its item back to itself through same-item calls (no unbounded re-dispatch) *)
+Theorem C13_no_loop : forall it ds of m t c x,
+  In it input_types -> In of input_types -> renders it ds of m t c x -> sloop TB c = false.
+Proof.
+  intros it ds of m t c x Hi Ho Hr. destruct (C13_cover _ _ _ _ _ _ _ Hi Ho Hr) as [Hin _].
+  destruct (combo_facts _ _ _ (combo_ok_all it ds of m Hi Ho)) as [_ [_ F3]].
+  destruct (F3 c Hin) as [_ [_ [_ N4]]]. exact N4.
 Qed.
 
 (* -e prints str(edit) only: no formatter is involved at all *)
-Theorem C13_edits_mode : forall it of t c x, ~ renders it of MEdits t c x.
-Proof. intros it of t c x [c0 [t0 [He _]]]. unfold entry_ok in He. exact He. Qed.
+Theorem C13_edits_mode : forall it ds of t c x, ~ renders it ds of MEdits t c x.
+Proof. intros it ds of t c x [c0 [t0 [He _]]]. unfold entry_ok in He. exact He. Qed.
 
 (* the statement at full strength is false on this tree: D9 (re-parenting) and D19 (plist has no null) *)
 Definition xml_doc : tree :=
@@ -444,9 +460,9 @@ Definition null_doc : tree := Tr "ListNode" [Tr "NullNode" []].
 Definition kvp_doc : tree := Tr "KeyValuePairNode" [Tr "StringNode" []; Tr "IntegerNode" []].
 
 Theorem C13_refuted :
-  (exists c x, renders "xml" "json" MDiff xml_doc c x /\ node_ok TB (grammar TB "xml") c x = false) /\
-  (exists c x, renders "json" "plist" MDiff null_doc c x /\ node_ok TB (grammar TB "json") c x = false) /\
-  (exists c x, renders "json" "yaml" MDigest kvp_doc c x /\ node_ok TB (grammar TB "json") c x = false).
+  (exists c x, renders "xml" DSAuto "json" MDiff xml_doc c x /\ node_ok TB (grammar_o TB "xml" DSAuto) c x = false) /\
+  (exists c x, renders "json" DSAuto "plist" MDiff null_doc c x /\ node_ok TB (grammar_o TB "json" DSAuto) c x = false) /\
+  (exists c x, renders "json" DSAuto "yaml" MDigest kvp_doc c x /\ node_ok TB (grammar_o TB "json" DSAuto) c x = false).
 Proof.
   split; [|split].
   - exists (["JSONFormatter"], "XMLElement", "XMLElement", true), xml_doc. split.
@@ -462,7 +478,7 @@ Proof.
       * (* PLISTFormatter -> PLISTSequenceFormatter.print_ListNode -> edit_print -> self.print(child);
            PLISTSequenceFormatter.print(NullNode) resolves in the parent: PLISTFormatter.print_LeafNode *)
         eapply cr_step. { apply cr_refl. }
-        eapply (cs_method TB (grammar TB "json") (["PLISTFormatter"], "ListNode", "ListNode", true) null_doc
+        eapply (cs_method TB (grammar_o TB "json" DSAuto) (["PLISTFormatter"], "ListNode", "ListNode", true) null_doc
                   ["PLISTSequenceFormatter"; "PLISTFormatter"] "print_ListNode" "PLISTSequenceFormatter").
         -- vm_compute. reflexivity.
         -- vm_compute. reflexivity.
@@ -477,23 +493,23 @@ Proof.
 Qed.
 
 (* which configurations of the product fall into the two classes on this tree (count, of 8 x 8 x 3 = 192) *)
-Definition kf_combos : list (string * string * omode) :=
+Definition kf_combos (ds : dstrategy) : list (string * string * omode) :=
   flat_map (fun it => flat_map (fun of => flat_map (fun m =>
-    if kf_reparent_cfg TB (grammar TB it) (root_class TB of) m || kf_emit_cfg TB (grammar TB it) (root_class TB of) m
+    if kf_reparent_cfg TB (grammar_o TB it ds) (root_class TB of) m || kf_emit_cfg TB (grammar_o TB it ds) (root_class TB of) m
     then [(it, of, m)] else []) out_modes) input_types) input_types.
 
 (* the hypotheses of C13_partial are satisfiable by non-trivial values, and its conclusion is not vacuous *)
 Definition json_doc : tree :=
   Tr "DictNode" [Tr "KeyValuePairNode" [Tr "StringNode" []; Tr "ListNode" [Tr "IntegerNode" []; Tr "NullNode" []]]].
 Example C13_partial_applies :
-  kf_reparent_cfg TB (grammar TB "json") (root_class TB "json") MDiff = false /\
-  kf_emit_cfg TB (grammar TB "json") (root_class TB "json") MDiff = false /\
-  kf_reparent_cfg TB (grammar TB "pickle") (root_class TB "xml") MDigest = false /\
-  kf_emit_cfg TB (grammar TB "pickle") (root_class TB "xml") MDigest = false /\
-  produced_by (grammar TB "json") json_doc = true /\
-  (exists c x, renders "json" "json" MDiff json_doc c x /\ c_cls c = "KeyValuePairNode") /\
-  kf_reparent_cfg TB (grammar TB "xml") (root_class TB "json") MDiff = true /\
-  kf_emit_cfg TB (grammar TB "json") (root_class TB "plist") MDiff = true.
+  kf_reparent_cfg TB (grammar_o TB "json" DSAuto) (root_class TB "json") MDiff = false /\
+  kf_emit_cfg TB (grammar_o TB "json" DSAuto) (root_class TB "json") MDiff = false /\
+  kf_reparent_cfg TB (grammar_o TB "pickle" DSAuto) (root_class TB "xml") MDigest = false /\
+  kf_emit_cfg TB (grammar_o TB "pickle" DSAuto) (root_class TB "xml") MDigest = false /\
+  produced_by (grammar_o TB "json" DSAuto) json_doc = true /\
+  (exists c x, renders "json" DSAuto "json" MDiff json_doc c x /\ c_cls c = "KeyValuePairNode") /\
+  kf_reparent_cfg TB (grammar_o TB "xml" DSAuto) (root_class TB "json") MDiff = true /\
+  kf_emit_cfg TB (grammar_o TB "json" DSAuto) (root_class TB "plist") MDiff = true.
 Proof.
   do 5 (split; [vm_compute; reflexivity|]).
   split; [|split; vm_compute; reflexivity].
@@ -504,7 +520,7 @@ Proof.
   - unfold entry_ok. split; [vm_compute; reflexivity|reflexivity].
   - auto.
   - eapply cr_step. { apply cr_refl. }
-    eapply (cs_method TB (grammar TB "json") (["JSONFormatter"], "DictNode", "DictNode", true) json_doc
+    eapply (cs_method TB (grammar_o TB "json" DSAuto) (["JSONFormatter"], "DictNode", "DictNode", true) json_doc
               ["JSONDictFormatter"; "JSONFormatter"] "print_MappingNode" "JSONDictFormatter").
     + vm_compute. reflexivity.
     + vm_compute. reflexivity.
@@ -515,5 +531,5 @@ Qed.
 Example table_sizes_bounded :
   let '(a, b, c, d, e) := table_sizes in
   (Nat.leb a 64 && Nat.leb b 16 && Nat.leb c 128 && Nat.leb d 256 && Nat.leb e 256
-   && Nat.leb (length rep_its) 8 && Nat.leb (length rep_roots) 8)%bool = true.
+   && Nat.leb (length rep_grams) 24 && Nat.leb (length rep_roots) 8)%bool = true.
 Proof. vm_compute. reflexivity. Qed.
